@@ -102,6 +102,21 @@ class Address(BaseAddress):
         return ".".join(self.parent + (self.name,))
 
     @property
+    def in_api_package(self) -> bool:
+        """Return True if this address is in the proto package being
+        generated or in one of its sub-packages.
+
+        A package that merely shares the prefix as text (`foo.v1beta1`
+        for `foo.v1`) is a dependency.
+        """
+        api_package = self.api_naming.proto_package
+        return (
+            not api_package
+            or self.proto_package == api_package
+            or self.proto_package.startswith(api_package + ".")
+        )
+
+    @property
     def is_proto_plus_type(self) -> bool:
         """This function is used to determine whether a given package `self.proto_package`
         is using proto-plus types or protobuf types. There are 2 scenarios where the package
@@ -115,7 +130,7 @@ class Address(BaseAddress):
         Returns:
             bool: Whether the given package uses proto-plus types or not.
         """
-        return self.proto_package.startswith(self.api_naming.proto_package) or (
+        return self.in_api_package or (
             hasattr(self.api_naming, "proto_plus_deps")
             and self.proto_package in self.api_naming.proto_plus_deps
         )
@@ -211,7 +226,7 @@ class Address(BaseAddress):
 
         # If this is part of the proto package that we are generating,
         # rewrite the package to our structure.
-        if self.proto_package.startswith(self.api_naming.proto_package):
+        if self.in_api_package:
             return imp.Import(
                 package=self.api_naming.module_namespace
                 + (self.api_naming.versioned_module_name,)
@@ -246,7 +261,7 @@ class Address(BaseAddress):
 
         # Check if this is a generated type
         # Use the original module name rather than the module_alias
-        if self.proto_package.startswith(self.api_naming.proto_package):
+        if self.in_api_package:
             return ".".join(
                 self.api_naming.module_namespace
                 + (self.api_naming.versioned_module_name,)
